@@ -125,7 +125,7 @@ const (
 
 	check0 = `if {{.Right}} == 0 {
 		errs = append(errs, i)
-		{{.Range}}[i] = 0
+		{{.Range}}[{{if and .IterName0 (eq .Range "incr")}}k{{else}}i{{end}}] = 0
 		continue
 	}
 	`
